@@ -62,8 +62,21 @@ PoolsRoundTrip(F) ==
     ELSE IF ~Representable(F) THEN R(DErr, [k |-> "none"])
     ELSE R("ok", [k |-> "pools", nodes |-> NodeDelegations(F), back |-> F])
 
+\* pools and single-resource delegations written onto the elements of an aggregate model and read back from it:
+\* an element cannot carry its own delegation and a pool entry at once (refused, nothing written)
+OwnDel == "delS"
+PoolsViaGraph(F, own) ==
+    IF \E a \in DOMAIN F : ~ValidPool(F[a]) THEN R("PoolException", [k |-> "none"])
+    ELSE IF ~Representable(F) THEN R(DErr, [k |-> "none"])
+    ELSE IF own \cap NodesOf(F) # {} THEN R("PropertyGraphQueryException", [k |-> "none"])
+    ELSE LET ND == NodeDelegations(F) IN
+         R("ok", [k |-> "pools", back |-> F,
+                  nodes |-> [n \in NodesOf(F) \cup own |-> IF n \in own THEN [d \in {OwnDel} |-> [fmt |-> "single", pool |-> "", det |-> "d2"]] ELSE ND[n]]])
+
 Apply(S, o) ==
     CASE o.op = "DelegRoundTrip"  -> RoundTrip(Fn(o.ds))
+      [] o.op = "PoolsViaGraph"   -> PoolsViaGraph([a \in DOMAIN o.fam |-> [del |-> o.fam[a].del, on |-> o.fam[a].on,
+                                                                          for |-> ToSet(o.fam[a].for), det |-> o.fam[a].det]], ToSet(o.own))
       [] o.op = "AddDuplicateId"  -> R(DErr, [k |-> "none"])          \* two delegations with one id in one set
       [] o.op = "DetailsOnReference" -> R(DErr, [k |-> "none"])
       [] o.op = "MixedType"       -> R(DErr, [k |-> "none"])          \* label details on a capacity delegation / vice versa
